@@ -555,12 +555,16 @@ HTPcreate(filerec_t *file_rec, /* IN: File record to store info in */
 
     /* dd_ptr->blk should already be correctly set */
 
+    /* Mark off the ref # as 'used' in the tag tree & add to dynarray of refs.
+       This fails when the tag/ref is already in use: give the DD slot back
+       before anything about it has been written to the file. */
+    if (HTIregister_tag_ref(file_rec, dd_ptr) == FAIL) {
+        dd_ptr->tag = DFTAG_NULL;
+        HGOTO_ERROR(DFE_INTERNAL, FAIL);
+    }
+
     /* Update the disk, etc. */
     if (HTIupdate_dd(file_rec, dd_ptr) == FAIL)
-        HGOTO_ERROR(DFE_INTERNAL, FAIL);
-
-    /* Mark off the ref # as 'used' in the tag tree & add to dynarray of refs */
-    if (HTIregister_tag_ref(file_rec, dd_ptr) == FAIL)
         HGOTO_ERROR(DFE_INTERNAL, FAIL);
 
     /* Get the atom to return */
@@ -1888,9 +1892,10 @@ HTIcount_dd(filerec_t *file_rec, uint16 cnt_tag, uint16 cnt_ref, unsigned *all_c
 static int
 HTIregister_tag_ref(filerec_t *file_rec, dd_t *dd_ptr)
 {
-    tag_info  *tinfo_ptr;                        /* pointer to the info for a tag */
+    tag_info  *tinfo_ptr = NULL;                 /* pointer to the info for a tag */
     tag_info **tip_ptr;                          /* ptr to the ptr to the info for a tag */
     uint16     base_tag  = BASETAG(dd_ptr->tag); /* the base tag for the tag tree */
+    int        new_tag   = FALSE;                /* whether the tag info was created here */
     int        ret_value = SUCCEED;
 
     HEclear();
@@ -1900,6 +1905,7 @@ HTIregister_tag_ref(filerec_t *file_rec, dd_t *dd_ptr)
         if ((tinfo_ptr = (tag_info *)calloc(1, sizeof(tag_info))) == NULL)
             HGOTO_ERROR(DFE_NOSPACE, FAIL);
         tinfo_ptr->tag = base_tag;
+        new_tag        = TRUE;
 
         /* Insert the tag node into the tree */
         tbbtdins(file_rec->tag_tree, (void *)tinfo_ptr, NULL);
@@ -1937,8 +1943,12 @@ HTIregister_tag_ref(filerec_t *file_rec, dd_t *dd_ptr)
 done:
     if (ret_value == FAIL) { /* Error condition cleanup */
 
-        if ((tinfo_ptr != NULL) && (tinfo_ptr->d != NULL))
+        /* only a ref array created by this call may be destroyed: the array of
+           an existing tag still holds that tag's other DDs */
+        if (new_tag && (tinfo_ptr != NULL) && (tinfo_ptr->d != NULL)) {
             DAdestroy_array(tinfo_ptr->d, 0);
+            tinfo_ptr->d = NULL;
+        }
     }
 
     return ret_value;
